@@ -59,6 +59,10 @@ def cfg_step(tier, seed):
     # the wavefront's type assigned after construction, as a name
     out += [{'w': w, 'op': 'ptype:' + p, 'variant': 'assigned-name'} for w in PT[:3] for p in PT]
     out += [{'w': w, 'op': o, 'variant': 'assigned-name'} for w in PT[:3] for o in ('propagate',)]
+    # a wavefront that carries no field at all (fully vignetted), and one whose fields are all steered off the output: the type rules are the same
+    out += [{'w': w, 'op': 'ptype:' + p, 'variant': 'dark'} for w in PT[:3] for p in PT]
+    out += [{'w': w, 'op': c, 'variant': 'dark'} for w in PT[:3] for c in ('Pupil', 'Image', 'Tilt')]
+    out += [{'w': w, 'op': 'propagate', 'variant': v} for w in PT[:3] for v in ('dark', 'steered-off')]
     # the other documented ways of writing the product: the plane's multiply() hook called directly, and the in-place form
     out += [{'w': w, 'op': 'ptype:' + p, 'form': f} for w in PT[:3] for p in PT for f in ('p.multiply(w)', 'w*=p')]
     out += [{'w': w, 'op': c, 'form': 'p.multiply(w)'} for w in PT[:3] for c in ('Pupil', 'Image', 'Tilt', 'DispersiveTilt')]
@@ -95,6 +99,26 @@ def run_step(W, cfg):
                 o = lt.propagate_dft(w, pixelscale=(W.real('ur', pos=True), W.real('uc', pos=True)), shape=(2, 2), oversample=1)
                 W.ob_true('propagation permitted only from pupil or image', ptable.propagate(cfg['w']) is not None)
                 W.ob_true('propagation turns one into the other', str(o.ptype) == ptable.propagate(cfg['w']))
+            except TypeError:
+                W.ob_true('propagation refused only from type none', ptable.propagate(cfg['w']) is None)
+            return
+        plane = _mk(W, lt, cfg['op'], 0)
+        ptype = _expected_plane_type(cfg['op'], classes)
+    elif variant in ('dark', 'steered-off'):
+        if variant == 'dark':
+            w = lt.Wavefront.empty(wavelength=W.real('lam', pos=True), pixelscale=(W.real('pr', pos=True), W.real('pc', pos=True)), focal_length=W.real('f', pos=True),
+                                   shape=(2, 2), ptype=lt.ptype(cfg['w']))
+        else:
+            w = lt.Wavefront(1.0, pixelscale=(1.0, 1.0), focal_length=1.0, ptype=cfg['w'])
+            w = w * lt.Plane(amplitude=W.reals('a_init', (2, 2), nz=True), ptype=cfg['w'])
+            for fld in w.data:
+                fld.tilt = [lt.Tilt(x=1000.0, y=-1000.0)]
+        if cfg['op'] == 'propagate':
+            try:
+                o = lt.propagate_dft(w, pixelscale=(1.0, 1.0), shape=(2, 2), oversample=1) if variant == 'steered-off' else \
+                    lt.propagate_dft(w, pixelscale=(W.real('ur', pos=True), W.real('uc', pos=True)), shape=(2, 2), oversample=1)
+                W.ob_true('propagation permitted only from pupil or image', ptable.propagate(cfg['w']) is not None)
+                W.ob_true('propagation turns one into the other (also when nothing lands on the output)', str(o.ptype) == ptable.propagate(cfg['w']))
             except TypeError:
                 W.ob_true('propagation refused only from type none', ptable.propagate(cfg['w']) is None)
             return
